@@ -141,6 +141,10 @@ func classifyPackage(d *PkgDesc, c PkgCtx, cfgBad string, pullErr bool, otherSam
 type C16Monitor struct {
 	Env         *int              // index into PkgEnvs (shared with the runner)
 	deployedFor map[string]string // package uid -> spec JSON for which unpackedHash was persisted
+	deployedEnv map[string]int    // package uid -> environment variant in force when that happened
+	// unrecorded: package uid -> a pass changed the deployment (template or slices) but did not get to persist the
+	// unpacked hash for that spec (its status write failed or the pass ended in an error), and no later pass has
+	unrecorded map[string]bool
 	Classes     map[string]int
 }
 
@@ -244,6 +248,21 @@ func (m *C16Monitor) AfterPass(r *Runner, pv *PassView) error {
 		}
 		return nil
 	}
+	if m.unrecorded == nil {
+		m.unrecorded = map[string]bool{}
+	}
+	recorded := false
+	for _, sw := range pv.StatusWrites {
+		if asStr(asMap(asMap(sw.Body)["status"])["unpackedHash"]) != "" && engine.Conditions(asMap(sw.Body))["Unpacked"].Status == "True" {
+			recorded = true
+		}
+	}
+	if recorded {
+		m.unrecorded[uid] = false
+	} else if depChange != nil {
+		m.unrecorded[uid] = true
+		r.Labels["c16-deployment-written-but-hash-not-recorded"] = true
+	}
 	class := classifyPackage(desc, ctx, cfgBad, pullErr, other)
 	if pulls > 0 {
 		m.Classes[class]++
@@ -255,6 +274,10 @@ func (m *C16Monitor) AfterPass(r *Runner, pv *PassView) error {
 		persisted = true
 		if asStr(asMap(asMap(sw.Body)["status"])["unpackedHash"]) != "" && conds["Unpacked"].Status == "True" {
 			m.deployedFor[uid] = specJSON(pv.Owner)
+			if m.deployedEnv == nil {
+				m.deployedEnv = map[string]int{}
+			}
+			m.deployedEnv[uid] = *m.Env
 		}
 	}
 	if class != "" {
@@ -335,7 +358,19 @@ func (m *C16Monitor) AfterStep(r *Runner, idx int, st Step) error {
 		if desc == nil {
 			continue
 		}
-		env := PkgEnvs[mod(*m.Env, len(PkgEnvs))]
+		// an unchanged package is left alone also when the environment changes: the render that counts is the one under the
+		// environment in force when the current spec was unpacked
+		envIdx := *m.Env
+		if uid := engine.UID(pkg); m.deployedFor[uid] == specJSON(pkg) {
+			if e, ok := m.deployedEnv[uid]; ok {
+				envIdx = e
+			}
+		}
+		if envIdx != *m.Env {
+			r.Labels["c16-environment-changed-since-unpack"] = true
+			continue // (whether the package is admissible now is a question about the new environment; PKO has no reason to look)
+		}
+		env := PkgEnvs[mod(envIdx, len(PkgEnvs))]
 		ctx, cfgBad := ctxFromPackage(pkg, env)
 		other := false
 		for _, ok := range r.W.ListKeys(engine.PKOGroup, "Package") {
@@ -369,7 +404,13 @@ func (m *C16Monitor) AfterStep(r *Runner, idx int, st Step) error {
 		if !kubesim.JSONEqual(gp, wp) {
 			gb, _ := json.Marshal(gp)
 			wb, _ := json.Marshal(wp)
-			return Violf("C16", "deployment-template-stale-at-quiescence", "after step %d: everything is quiescent but the ObjectDeployment template of Package %s\n  %s\nis not the render of its current spec\n  %s", idx, k.Name, trunc(string(gb), 1200), trunc(string(wb), 1200))
+			key := "deployment-template-stale-at-quiescence"
+			if uid := engine.UID(pkg); m.unrecorded[uid] && m.deployedFor[uid] == specJSON(pkg) {
+				// the spec was edited, the new render reached the deployment but the pass could not record it (status write
+				// failed); then the spec was set back to the one whose hash is still recorded
+				key += ":spec-reverted-after-deploy-whose-status-write-failed"
+			}
+			return Violf("C16", key, "after step %d: everything is quiescent but the ObjectDeployment template of Package %s\n  %s\nis not the render of its current spec\n  %s", idx, k.Name, trunc(string(gb), 1200), trunc(string(wb), 1200))
 		}
 	}
 	return nil
@@ -447,7 +488,7 @@ func (r *Runner) applyEnv() {
 	e := PkgEnvs[mod(r.EnvIdx, len(PkgEnvs))]
 	env := &manifests.PackageEnvironment{Kubernetes: manifests.PackageEnvironmentKubernetes{Version: e.KubeVersion}}
 	if e.OpenShift {
-		env.OpenShift = &manifests.PackageEnvironmentOpenShift{Version: "v4.13.0"}
+		env.OpenShift = &manifests.PackageEnvironmentOpenShift{Version: "4.13.0"}
 	}
 	if r.HyperShift {
 		env.HyperShift = &manifests.PackageEnvironmentHyperShift{}
